@@ -43,6 +43,40 @@ impl<T: ?Sized> RepeatableLockFuture<T> {
 }
 
 
+/// Scheduling points for verification harnesses (compiled only with
+/// `--cfg fastcgi_server_verif`; no-ops unless a callback is installed).
+#[cfg(fastcgi_server_verif)]
+pub mod verif_hook {
+    use std::sync::Mutex;
+
+    /// Inside `WaitGroupFuture::poll`, after `Weak::upgrade` succeeded.
+    pub const AFTER_UPGRADE: u8 = 1;
+    /// Inside `WaitGroupFuture::poll`, after the waker was registered and
+    /// before the temporary `Arc` is dropped.
+    pub const AFTER_REGISTER: u8 = 2;
+
+    type Callback = Box<dyn FnMut(u8) + Send>;
+    static HOOK: Mutex<Option<Callback>> = Mutex::new(None);
+
+    /// Installs (or removes) the callback invoked at each scheduling point.
+    pub fn set(cb: Option<Callback>) {
+        *HOOK.lock().unwrap_or_else(std::sync::PoisonError::into_inner) = cb;
+    }
+
+    pub(super) fn at(point: u8) {
+        // Take the callback out while it runs so that it may re-enter `set`
+        let cb = HOOK.lock().unwrap_or_else(std::sync::PoisonError::into_inner).take();
+        if let Some(mut cb) = cb {
+            cb(point);
+            let mut slot = HOOK.lock().unwrap_or_else(std::sync::PoisonError::into_inner);
+            if slot.is_none() {
+                *slot = Some(cb);
+            }
+        }
+    }
+}
+
+
 // Adapted from https://github.com/laizy/waitgroup-rs
 #[derive(Default)]
 struct WaitGroupInner {
@@ -77,7 +111,11 @@ impl Future for WaitGroupFuture {
         match self.0.upgrade() {
             None => Poll::Ready(()),
             Some(wg) => {
+                #[cfg(fastcgi_server_verif)]
+                verif_hook::at(verif_hook::AFTER_UPGRADE);
                 wg.waker.register(cx.waker());
+                #[cfg(fastcgi_server_verif)]
+                verif_hook::at(verif_hook::AFTER_REGISTER);
                 Poll::Pending
             },
         }
